@@ -10,8 +10,9 @@ MODULES = ["Util"]
 LEAN_TARGETS = ["Props.C10"]
 ANCHORS = ["cyecca/util.py"]
 MISSING = [
-    "sqrt_correct with the QR factorisation abstracted by its contract (Q orthogonal, R triangular) for general n, m as a theorem: "
-    "the translated instances n<=2, m=1 use CasADi's symbolic QR inline; larger sizes and P+ <= P are numeric search only",
+    "sqrt_correct: generic theorem Lib/SqrtFilter for all dimensions under the QR contract (Q^T Q = 1, Q R = A), instantiated on the QR-abstracted "
+    "variant of the real routine for n = 3, m = 2 (and on the estimator's 6x1 / 6x2 uses in C11); n = m = 1 with CasADi's symbolic QR inlined; "
+    "ca.qr meeting the contract, and the variant composed with ca.qr being the shipped routine, are checked numerically each run; other sizes: search only",
     "LDL/UDU for every n by induction over a hand model (proved for the translated sizes n = 1..4)",
     "RK4 order 4 for arbitrary smooth vector fields (proved: exact for cubic-in-time derivatives, degree-4 Taylor polynomial of the linear ODE, consistency)",
 ]
@@ -121,8 +122,28 @@ def search(ctx):
             report("rk4:linear", "RK4 on y' = lam y is not the degree-4 Taylor polynomial of exp", {"lam": lm, "y0": y0.tolist()}, abs(y1[0] - lin), 1e-12)
         if errs[0] > 1e-13 and not errs[1] <= errs[0] / 20:
             report("rk4:order", "local error does not shrink like h^5 (halving h should divide it by ~32)", {"lam": lm, "y0": y0.tolist(), "errs": errs}, errs[1] / errs[0], 1 / 20)
+    # the QR contract and the QR-abstracted variant (ties the hypotheses of C10.sqrt_correct_qr_3_2 to the code)
+    import catalog, core
+    spec = [sp for sp in catalog.util_specs() if sp.name == "util.sqrt_correct_qr_3_2"][0]
+    g = core.numeric_function(spec)
+    A_s = ca.SX.sym("A", 5, 5); Qs, Rq = ca.qr(A_s); fqr = ca.Function("qr", [A_s], [Qs, Rq])
+    Ws = ca.SX.sym("W", ca.Sparsity.lower(3)); Hs = ca.SX.sym("H", 2, 3); Rs_ = ca.SX.sym("Rs", ca.Sparsity.lower(2))
+    Wp, K, Ss = u.sqrt_correct(Rs_, Hs, Ws); freal = ca.Function("c32", [Rs_, Hs, Ws], [ca.densify(Wp), ca.densify(K), ca.densify(Ss)])
+    nq = 0
+    for r in range(reps * 2):
+        W = np.tril(rng.standard_normal((3, 3))); W[np.diag_indices(3)] = rng.uniform(0.3, 2, 3)
+        H = rng.standard_normal((2, 3)); Rs = np.tril(rng.standard_normal((2, 2))); Rs[np.diag_indices(2)] = rng.uniform(0.2, 1.5, 2)
+        o = g(Rs, H, W, np.eye(5), np.eye(5)); A = np.array(o[-1])
+        Q, R = (np.array(v) for v in fqr(A)); ev += 2; nq += 1
+        e1 = max(np.max(np.abs(Q.T @ Q - np.eye(5))), np.max(np.abs(Q @ R - A)), np.max(np.abs(np.tril(R, -1))))
+        if not e1 <= 1e-9 * (1 + np.max(np.abs(A))):
+            report("qr:contract", "ca.qr does not return Q^T Q = 1, Q R = A, R upper triangular", {"A": A.tolist()}, e1, 1e-9)
+        o2 = g(Rs, H, W, Q, R); ref = freal(Rs, H, W)
+        e2 = max(np.max(np.abs(np.array(o2[j]) - np.array(ref[j]))) for j in range(3))
+        if not e2 <= 1e-9:
+            report("qr:variant", "the QR-abstracted sqrt_correct composed with ca.qr differs from the shipped routine", {"Rs": Rs.tolist(), "H": H.tolist(), "W": W.tolist()}, e2, 1e-9)
     ctx.samples.extend(found[:3] or [{"n": 6, "m": 3, "note": "estimator-sized update"}])
-    return found, {"evaluations": ev, "distinct_nontrivial": ev, "sizes": [list(s) for s in sizes]}
+    return found, {"evaluations": ev, "distinct_nontrivial": ev, "sizes": [list(s) for s in sizes], "qr_contract_samples": nq}
 
 
 def replay(payload):
